@@ -21,5 +21,6 @@ func main() {
 		os.Stdout.WriteString(calibrate() + "\n")
 		return
 	}
-	hx.Main(map[string]hx.Area{"api": &apiArea{}, "wf": wfArea{}, "trace": traceArea{}})
+	hx.Main(map[string]hx.Area{"api": &apiArea{}, "wf": wfArea{}, "trace": traceArea{}, "names": namesArea{},
+		"race": raceArea{}, "compound": compoundArea{}})
 }
